@@ -233,6 +233,51 @@ fn c15_states<A: Subject>(run: &Run, backend: Backend, unify: bool) {
   crate::crashguard::clear_case();
 }
 
+/// arenas of every capacity around the size of their own prefix: whatever construction accepts must satisfy
+/// the slice / reader bounds
+fn c15_tiny<A: Subject>(run: &Run, backend: Backend, unify: bool) {
+  let flav = A::FLAVOUR;
+  for reserved in [0u32, 5, 8] {
+    for cap in 0..=56u32 {
+      let mut cfg = Cfg::new(Fl::Optimistic, backend, unify, cap);
+      cfg.reserved = reserved;
+      let p = if backend == Backend::File { Some(fresh_path("c15t")) } else { None };
+      let case = json!({"engine": "c15", "flavour": flav, "backend": backend, "unify": unify, "reserved": reserved, "capacity": cap, "part": "tiny"});
+      crate::crashguard::set_case(crate::crashguard::head_of(&case));
+      let r = std::panic::catch_unwind(std::panic::AssertUnwindSafe(|| {
+        let Ok(a) = build::<A>(&cfg, p.as_ref()) else { return vec![] };
+        let (al, c, dof) = (a.allocated(), a.capacity(), a.data_offset());
+        let mut bad = vec![];
+        if al > c || al < dof.min(c) {
+          bad.push(format!("allocated() = {} with data_offset {} and capacity {}", al, dof, c));
+        }
+        if a.allocated_memory().len() != al || a.memory().len() != c || a.allocated_memory().len() > a.memory().len() {
+          bad.push(format!("allocated_memory {} memory {} for allocated {} capacity {}", a.allocated_memory().len(), a.memory().len(), al, c));
+        }
+        for off in [c.saturating_sub(1), c, c + 1, al] {
+          if off >= al.min(c) && a.get_u8(off).is_ok() {
+            bad.push(format!("get_u8({}) returned Ok with allocated {} capacity {}", off, al, c));
+          }
+        }
+        bad
+      }));
+      run.eval(1);
+      match r {
+        Err(_) => viol(run, "C15", "panic-in-state:tiny", format!("[{flav} {backend:?} unify={unify} reserved {reserved} capacity {cap}] construction or accessors panicked"), case),
+        Ok(bad) => {
+          for m in bad {
+            viol(run, "C15", "slice-lengths:tiny-capacity", format!("[{flav} {backend:?} unify={unify} reserved {reserved} capacity {cap}] {m}"), case.clone());
+          }
+        }
+      }
+      if let Some(p) = p {
+        let _ = std::fs::remove_file(p);
+      }
+    }
+  }
+  crate::crashguard::clear_case();
+}
+
 /// reference encoder: LEB128, 7 value bits per byte, least significant group first
 fn leb128(mut v: u128) -> Vec<u8> {
   let mut out = vec![];
@@ -339,6 +384,11 @@ pub fn check_c15(tier: Tier) -> i32 {
     c15_states::<sync::Arena>(&run, b, u);
     c15_states::<unsync::Arena>(&run, b, u);
   }
+  for (b, u) in [(Backend::Vec, false), (Backend::Vec, true), (Backend::Anon, true), (Backend::File, true)] {
+    c15_tiny::<sync::Arena>(&run, b, u);
+    c15_tiny::<unsync::Arena>(&run, b, u);
+  }
+  crate::props_sched::c15_concurrent(&run, thorough);
   for b in [Backend::Vec, Backend::File] {
     c15_varint_values::<sync::Arena>(&run, b);
     c15_varint_values::<unsync::Arena>(&run, b);
